@@ -412,6 +412,9 @@ func c18Generate(r *core.Run) []c18Config {
 	}()
 	// always through the client handler: one live shared backend whose prefix is spelled differently on the wire
 	for i := range cfgs {
+		if bs := cfgs[i].Backends; len(bs) == 1 && bs[0].EndUser == "allUsers" && (bs[0].Seen == "6m" || bs[0].Seen == "never") && bs[0].Active == "" && bs[0].Repolled == "" && !bs[0].Rereg && !bs[0].Usurped && !cfgs[i].Cron && bs[0].Prefixes[0] == "/" {
+			cfgs[i].HTTP = true // a dead backend that matches everything: with failing reads it must still not be routed to
+		}
 		if bs := cfgs[i].Backends; len(bs) == 1 && bs[0].EndUser == "allUsers" && bs[0].Seen == "fresh" && bs[0].Active == "" && bs[0].Repolled == "" && !bs[0].Rereg {
 			switch bs[0].Prefixes[0] {
 			case "/données/", "/a b/", "/50%/", "/a/", "/a/b", "/", "":
@@ -453,7 +456,7 @@ func c18Generate(r *core.Run) []c18Config {
 
 // C18 — routing to the most specific live backend.
 func C18(r *core.Run) {
-	r.SetRule("bounded-exhaustive comparison of LookupBackend (real caching+persistent store over a fake datastore/memcache) with an independent longest-prefix specification: 1-4 backends, prefix lists (1-3, duplicates) over {/, /a, /a/, /a/b, /ab, /b, \"\", /données/, \"/a b/\", /50%/}, endUser in {u1 (a mixed-case address, upper-case domain), u2, allUsers}, a third of the configurations (and every one sent through the client handler) registered through POST /api/backends instead of the store interface, last poll in {fresh,4m,6m,1h,never} x last posted response in {none,fresh,4m,6m} (dated independently; posted through the real store), backends with an earlier life under the same ID (registered, polled, answered, deleted, registered again = never polled), backends registered again for another agent account while only the former agent keeps polling (through /agent/pending; must be turned away and must not keep the backend live), the cron clean-up (/cron/delete) run between the registrations and the first polls in a fifth of the configurations (nothing that recent may be removed), one configuration with 520 private backends of one user and 510 shared ones (most specific matches late in key order), backends registered, polled and registered again within seconds (directly or after a delete) before their present poll, users {u1,u2,u3} x 12 paths (including non-ASCII, space, percent and one that arrives with an encoded slash, %2F; the request path is the decoded one), every/many insertion orders, each lookup repeated; sample through the client HTTP handler (also paths that look like platform / API / agent endpoints - /_ah/warmup, /_ah, /_ahx, /apix/..., /agents/..., /cron/... - and every request repeated with the handler's 1st or 2nd datastore query failing: an error answer is admissible then, a backend the specification does not select is not), including three-step histories (a cacheable GET answered by the one admissible backend; that backend deleted / its last poll aged past the window / registered for another end user; the same GET again); class = (#backends, candidate source user/shared/none, #candidates, longest match length, tie size, liveness of the longest class, more specific shared backend present)")
+	r.SetRule("bounded-exhaustive comparison of LookupBackend (real caching+persistent store over a fake datastore/memcache) with an independent longest-prefix specification: 1-4 backends, prefix lists (1-3, duplicates) over {/, /a, /a/, /a/b, /ab, /b, \"\", /données/, \"/a b/\", /50%/}, endUser in {u1 (a mixed-case address, upper-case domain), u2, allUsers}, a third of the configurations (and every one sent through the client handler) registered through POST /api/backends instead of the store interface, last poll in {fresh,4m,6m,1h,never} x last posted response in {none,fresh,4m,6m} (dated independently; posted through the real store), backends with an earlier life under the same ID (registered, polled, answered, deleted, registered again = never polled), backends registered again for another agent account while only the former agent keeps polling (through /agent/pending; must be turned away and must not keep the backend live), the cron clean-up (/cron/delete) run between the registrations and the first polls in a fifth of the configurations (nothing that recent may be removed), one configuration with 520 private backends of one user and 510 shared ones (most specific matches late in key order), backends registered, polled and registered again within seconds (directly or after a delete) before their present poll, users {u1,u2,u3} x 12 paths (including non-ASCII, space, percent and one that arrives with an encoded slash, %2F; the request path is the decoded one), every/many insertion orders, each lookup repeated; sample through the client HTTP handler (also paths that look like platform / API / agent endpoints - /_ah/warmup, /_ah, /_ahx, /apix/..., /agents/..., /cron/... - and every request repeated with the handler's 1st or 2nd datastore query, or its first / every datastore read (the liveness record), failing: an error answer is admissible then, a backend the specification does not select is not), including three-step histories (a cacheable GET answered by the one admissible backend; that backend deleted / its last poll aged past the window / registered for another end user; the same GET again); class = (#backends, candidate source user/shared/none, #candidates, longest match length, tie size, liveness of the longest class, more specific shared backend present)")
 	r.Assume("ties and a non-live member of the longest-prefix class admit 404 or any live member; liveness margins are >= 60 s from the 5-minute boundary; 'never seen' is the state right after registration; a backend is live iff its agent listed pending requests within the window - a posted response never counts; a request answered without being queued for any backend (GET cache replay) is admissible only where some backend is admissible for that user and path; last-seen ages are produced by ageing the time-valued properties written when the backend's pending list is read")
 	bin := r.MustBuild(e3Build(r))
 	cfgs := c18Generate(r)
